@@ -11,8 +11,8 @@ from concurrent.futures import ThreadPoolExecutor
 PROP = "C15"
 META = {
  "engine": "S-scheduler",
- "text": "Coq theorems (Props/C15.v, closed under the global context) prove for EVERY finite stream of control points (any values, any durations, any ticks_per_beat, linear and cosine mode, any event-count limit): the trace of the track is the first value followed by, for each consecutive pair of points, the D_i values v_i + (v_next - v_i) f(j/D_i), j = 1..D_i (f = id or (1 - cos(pi x))/2), hence exactly one control call on each of the 1 + sum D_i ticks and none after; each point is hit exactly (cos pi = -1), values stay between the segment's end points (-1 <= cos <= 1), zero-length points contribute no tick (jump), non-numeric fields and numeric fields equal at both ends are emitted unchanged, and a segment with a non-control end raises InvalidEventException without a call; durations within 5e-9 of a whole number of ticks count as that number. The model is a transcription of PInterpolate.__next__, PDict.__next__ and the interpolating branch of Track.tick as state machines and is tied to the repository on every run: several hundred tracks (8 resolutions, 2-8 points, rising/falling ints and floats, segment lengths 0/1/2/5/29/57/N/3N, float-awkward durations, quantize/delay/count, looping patterns, string controls, mixed-in non-control events) are run on a real Timeline tick by tick and every control() call (tick index exact; values exact where the exact value is a double, else 1e-9) is compared inside Coq (vm_compute) with the model's trace; an independent closed-form oracle in Fractions judges each implementation trace and supplies the failing input.",
- "note": "Trusted: Coq kernel + VM; the Python harness; libm: cos(pi x) is taken from math.cos (a table of the values the run needs is handed to the model; the theorems assume only cos(pi*1) = -1 and -1 <= cos <= 1); IEEE double arithmetic of a + dt*(n+1)/D is validated by the exact/1e-9 comparison, not modelled bit by bit. Modelled not verified: Event construction and defaults (event.py) enter as data; the start tick (quantize/delay) is transcribed from Track.update/_schedule_action but its properties belong to the scheduling properties. Not covered: INTERPOLATION_NONE branch, muted/inactive events, tracks whose numeric field is missing in the next point (model: OErr).",
+ "text": "Coq theorems (Props/C15.v, closed under the global context) prove for EVERY finite stream of control points (any values, any durations, any ticks_per_beat, linear and cosine mode, any event-count limit): the trace of the track is the first value followed by, for each consecutive pair of points, the D_i values v_i + (v_next - v_i) f(j/D_i), j = 1..D_i (f = id or (1 - cos(pi x))/2), hence exactly one control call on each of the 1 + sum D_i ticks and none after; each point is hit exactly (cos pi = -1), values stay between the segment's end points (-1 <= cos <= 1), zero-length points contribute no tick (jump), non-numeric fields and numeric fields equal at both ends are emitted unchanged, and a segment with a non-control end raises InvalidEventException without a call; durations within 5e-9 of a whole number of ticks count as that number. The model is a transcription of PInterpolate.__next__, PDict.__next__ and the interpolating branch of Track.tick as state machines and is tied to the repository on every run: several hundred tracks (8 resolutions, 2-8 points, rising/falling ints and floats, segment lengths 0/1/2/5/29/57/N/3N, float-awkward durations, quantize/delay/count, looping patterns, string controls, mixed-in non-control events) are run on a real Timeline tick by tick and every control() call (tick index exact; values exact where the exact value is a double, else 1e-9) is compared inside Coq (vm_compute) with the model's trace; an independent closed-form oracle in Fractions judges each implementation trace and supplies the failing input. Second round - the timeline's resolution is re-configured AFTER the track was scheduled (timeline.ticks_per_beat = n, timeline.clock_source = <clock with another resolution>, timeline.clock_source.ticks_per_beat = n; before the track's first tick - started at once or by quantize/delay -, between two segments, on a planning tick, in the middle of a segment; once or twice; finer, coarser, multiples, divisors, the same value): Sched/InterpRetime.v carries the resolution in the state of a history of ticks and changes (rt_trace; runv = tick k made at the resolution R k, R arbitrary) and the theorems C15_retime_* prove for EVERY such history that a segment is planned with D = round(duration x the resolution in force on its planning tick) steps (the first segment on the track's first tick, every later one on the tick after its starting point was sent), sends one message per tick, follows the curve formula with that D, hits its end point exactly and keeps its plan whatever the resolution does while it is under way (C15_retime_plan_kept); about a hundred such tracks are run on a real Timeline, judged by the oracle (D_i = duration_i x the resolution in force when segment i begins) and compared with the model (timeline_runv, in which the timeline's time advances by exactly one tick of the resolution in force, as the repaired Timeline.tick does: no snapping onto the new grid).",
+ "note": "Trusted: Coq kernel + VM; the Python harness; libm: cos(pi x) is taken from math.cos (a table of the values the run needs is handed to the model; the theorems assume only cos(pi*1) = -1 and -1 <= cos <= 1); IEEE double arithmetic of a + dt*(n+1)/D is validated by the exact/1e-9 comparison, not modelled bit by bit. Modelled not verified: Event construction and defaults (event.py) enter as data; the start tick (quantize/delay) is transcribed from Track.update/_schedule_action but its properties belong to the scheduling properties. Resolution changes: the oracle abstains when a change falls between the tick of a control point and the next tick (the text does not say which segment it belongs to; the model, like the code, plans the new segment with the new resolution); a deferred start after a change is judged exactly (beats elapse at 1 / the resolution in force per tick; exact arithmetic - that the float clock of advance_on_tick_grid stays within rounding error of it is Base/FloatGrid.v retick_run_exact, not part of this cone). Not covered: changes made from inside a tick (by another track's event), output-device clock multipliers after a change, real clocks and tempo. Not covered: INTERPOLATION_NONE branch, muted/inactive events, tracks whose numeric field is missing in the next point (model: OErr).",
 }
 
 NS = [1, 7, 10, 24, 96, 100, 480, 1000]
@@ -20,7 +20,7 @@ TOL = Fraction(1, 10 ** 9)
 
 EXTRA_TARGETS = ["Sched/InterpCheck.vo"]
 
-HEADER = """From Isobar Require Import Base.Prelude Sched.Interp Sched.InterpCheck.
+HEADER = """From Isobar Require Import Base.Prelude Sched.Interp Sched.InterpRetime Sched.InterpCheck.
 From Coq Require Import QArith String Uint63.
 Local Open Scope Z_scope.
 Definition kc := "control"%string.
@@ -156,10 +156,12 @@ def make_case(rng, stratum, N=None, mode=None):
     N = N or rng.choice(NS)
     mode = mode or rng.choice(["linear", "cosine"])
     c = {"stratum": stratum, "N": N, "mode": mode, "pre": 0, "quantize": None, "delay": None, "count": None,
-         "ignore_exceptions": False, "form": "dict", "loop": False,
+         "ignore_exceptions": False, "form": "dict", "loop": False, "changes": [],
          "control": rng.randint(0, 127), "channel": rng.randint(0, 15)}
     budget = rng.choice([300, 600, 1200, 3300]) if N >= 480 else rng.choice([200, 400, 800]) if N >= 96 else 400
     n = rng.randint(2, 8)
+    if stratum == "retime":
+        return make_retime_case(rng, c)
     if stratum == "basic":
         c["points"] = gen_points(rng, N, n, budget)
     elif stratum == "three-plus":
@@ -251,6 +253,140 @@ def make_case(rng, stratum, N=None, mode=None):
     return c
 
 
+# ---- the resolution is re-configured after the track was scheduled --------------------------------------
+RETIME_WHERE = ["before-first-tick", "before-first-tick", "after-first-tick", "between", "boundary", "mid", "mid",
+                "deferred", "deferred-then-mid", "twice", "twice-mid", "same", "reject"]
+HOWS = ["set", "set", "swap", "clock"]
+
+
+def res_at(case, k):
+    """the resolution in force during tick k: every change is made before the tick it names"""
+    n = case["N"]
+    for ch in case["changes"]:
+        if ch["tick"] <= k:
+            n = ch["N"]
+    return n
+
+
+def new_resolution(rng, n):
+    cand = [m for m in (2 * n, 3 * n, 20 * n, 4 * n) if m <= 1000]
+    cand += [n // d for d in (2, 3, 4, 20) if n % d == 0 and n // d >= 1]
+    if rng.random() < 0.6 and cand:
+        return rng.choice(cand)
+    return rng.choice([m for m in NS + [12, 48, 960] if m != n])
+
+
+def start_under_changes(case):
+    """The tick on which a track scheduled after case['pre'] ticks with quantize/delay starts when the resolution
+    changes on the way: beats elapse at 1 / (the resolution in force) per tick (the repaired Timeline.tick: no snapping
+    of the time onto the new grid), the track starts on the first tick at which the elapsed beats have reached
+    quantize * ceil(now / quantize) + delay.  Exact Fractions.  None: too close to call (within 1e-8 beats)."""
+    if not (case["quantize"] or case["delay"]):
+        return case["pre"]
+    t = Fraction(0)
+    for k in range(case["pre"]):
+        t += Fraction(1, res_at(case, k))
+    q = Fraction(case["quantize"] or 0)
+    d = Fraction(case.get("delay_exact") or case["delay"] or 0)
+    when = (t if q == 0 else q * math.ceil(t / q)) + d
+    for k in range(case["pre"], case["pre"] + 6000):
+        gap = when - t
+        if 0 < gap < Fraction(1, 10 ** 7):
+            return None
+        if gap <= 0:
+            return k
+        t += Fraction(1, res_at(case, k))
+    return None
+
+
+def make_retime_case(rng, c):
+    """a track of 3-6 points on a timeline whose resolution changes once or twice after schedule(); every duration is a
+    whole number of ticks at the resolution in force on the tick on which its segment is planned"""
+    for _ in range(50):
+        where = rng.choice(RETIME_WHERE)
+        c["stratum"], c["edge"] = "retime", where
+        c["changes"], c["quantize"], c["delay"], c["form"] = [], None, None, "dict"
+        N0 = c["N"]
+        c["pre"] = rng.choice([0, 0, 1, 3, N0])
+        n = rng.randint(3, 6)
+        rel, absolute = [], []          # (segment, "0" | "1" | "mid"), tick offsets after schedule()
+        seg = lambda lo: rng.randint(lo, n - 2)
+        if where == "before-first-tick":
+            absolute = [0]
+        elif where == "after-first-tick":
+            rel = [(0, "1")]
+        elif where == "between":
+            rel = [(seg(1), "0")]
+        elif where == "boundary":
+            rel = [(seg(1), "1")]
+        elif where == "mid":
+            rel = [(seg(0), "mid")]
+        elif where in ("deferred", "deferred-then-mid"):
+            c["quantize"] = rng.choice([None, 1, 0.5, 0.25, 2])
+            c["delay"] = rng.choice([0.5, 1, 0.25, 1.5]) if c["quantize"] is None or rng.random() < 0.4 else None
+            absolute = [rng.choice([0, 0, 1, 2, 5])]
+            if where == "deferred-then-mid":
+                rel = [(seg(0), "mid")]
+        elif where == "twice":
+            absolute = [0]
+            rel = [(seg(1), rng.choice(["0", "1"]))]
+        elif where == "twice-mid":
+            k = seg(0)
+            rel = [(k, "mid"), (k, "mid")] if rng.random() < 0.5 else [(k, "mid"), (min(k + 1, n - 2), "mid")]
+        elif where == "same":
+            rel = [(seg(0), rng.choice(["0", "mid"]))]
+        elif where == "reject":
+            c["form"] = "seq"
+            absolute = [0] if rng.random() < 0.5 else []
+            rel = [(seg(0), rng.choice(["0", "mid"]))]
+        cur = N0
+        for off in absolute:
+            m = cur if where == "same" else new_resolution(rng, cur)
+            c["changes"].append({"tick": c["pre"] + off, "N": m, "how": rng.choice(HOWS)})
+            cur = m
+        T0 = start_under_changes(c)
+        if T0 is None or T0 > c["pre"] + 2500:
+            continue
+        kinds = rng.choice([["int"], ["eighth"], ["int", "eighth"], ["unit"], ["wide"]])
+        pts, T, first, ok = [], T0, True, True
+
+        def add_change(tick):
+            if any(ch["tick"] >= tick for ch in c["changes"]):
+                return False
+            here = res_at(c, tick)
+            m = here if where == "same" else new_resolution(rng, here)
+            c["changes"].append({"tick": tick, "N": m, "how": rng.choice(HOWS)})
+            return True
+        for k in range(n):
+            v = gen_value(rng, rng.choice(kinds))
+            mine = [w for (kk, w) in rel if kk == k]
+            if k == n - 1:
+                pts.append({"kind": "control", "value": v, "D": 1, "dur": 1 / res_at(c, T + 1)})
+                break
+            for w in mine:
+                if w in ("0", "1"):
+                    ok = add_change(T + int(w)) and ok
+            Rp = res_at(c, T if first else T + 1)
+            if not mine and k > 0 and rng.random() < 0.1:
+                pts.append({"kind": "control", "value": v, "D": 0, "dur": 0})
+                continue
+            D = rng.choice([d for d in (3, 4, 5, 12, 29, 57, Rp, 2 * Rp, Rp // 2, Rp // 4) if 3 <= d <= 400] +
+                           ([] if "mid" in mine else [1, 2, 2]))
+            pts.append({"kind": "control", "value": v, "D": D, "dur": dur_value(D, Rp, rng)})
+            for j in sorted(rng.sample(range(2, D), max(0, min(mine.count("mid"), D - 2)))):
+                ok = add_change(T + j) and ok
+            T += D
+            first = False
+        if not ok or not c["changes"] or T - T0 > 1500:
+            continue
+        if where == "reject":
+            pts[rng.randrange(1, n)]["kind"] = rng.choice(["note", "program_change"])
+            c["ignore_exceptions"] = rng.random() < 0.3
+        c["points"], c["t0_plan"] = pts, T0
+        return c
+    raise CheckError("retime generator: no usable case in 50 attempts")
+
+
 def default_dur_ticks(info, N):
     d = dec(info["default_duration"])
     return d, Fraction(d) * N
@@ -277,6 +413,7 @@ def stream_of(case, info):
 
 def payload_of(case):
     p = {k: case[k] for k in ("N", "mode", "pre", "quantize", "delay", "count", "ignore_exceptions", "form")}
+    p["changes"] = case.get("changes", [])
     if case["form"] == "dict":
         f = {"control": {"const": case["control"]},
              "value": {"seq": [q["value"] for q in case["points"]], "loop": case["loop"]},
@@ -321,7 +458,13 @@ def snippet(case):
             "for t in range(%d):\n"
             "    dev.now = t\n"
             "    if t == %d: tl.schedule(%s, interpolate=%r%s)\n"
-            "    tl.tick()\n" % (case["N"], case["ignore_exceptions"], case["nticks"], case["pre"], ev, case["mode"], kw))
+            "%s"
+            "    tl.tick()\n" % (case["N"], case["ignore_exceptions"], case["nticks"], case["pre"], ev, case["mode"], kw,
+                                "".join("    if t == %d: %s\n" % (ch["tick"], {
+                                    "set": "tl.ticks_per_beat = %d" % ch["N"],
+                                    "swap": "tl.clock_source = iso.DummyClock(ticks_per_beat=%d)" % ch["N"],
+                                    "clock": "tl.clock_source.ticks_per_beat = %d" % ch["N"]}[ch["how"]])
+                                        for ch in case.get("changes", []))))
 
 
 # ---- independent oracle (property text, exact Fractions) -------------------------------------------------
@@ -357,6 +500,10 @@ def oracle(case, res, info):
     N, mode = case["N"], case["mode"]
     calls = res["calls"]
     t0 = oracle_t0(case)
+    if case.get("changes"):
+        t0, pts, why = oracle_replan(case, res, pts, t0)
+        if pts is None:
+            return bad, why
     control = case["control"]
     channel = dec(info["default_channel"]) if case["channel"] == "default" else case["channel"]
     if any(p.get("frac") or p["D"] is None for p in pts):
@@ -404,6 +551,38 @@ def oracle(case, res, info):
         pass
     bad += curve_failures(pts, t0, N, mode, calls, control, channel, closed=True)
     return bad, "curve"
+
+
+def oracle_replan(case, res, pts, t0_fixed):
+    """The property text under a resolution that changes after schedule(): "a segment of D ticks", "for all
+    ticks_per_beat" - D_i = duration_i x the resolution in force when segment i begins; a change while a segment is
+    under way does not re-plan it.  Segment 0 begins on the track's first tick; segment i >= 1 begins once point i has
+    been sent (tick T_i); a change made between tick T_i and tick T_i + 1 is not attributed by the text to either
+    segment, so the oracle abstains there.  The start tick ("with and without quantize/delay") is the first tick at which
+    the beats elapsed - every tick counted with the tick length in force at that tick - have reached the scheduled time.
+    Returns (t0, points with their D, None) or (t0, None, reason to abstain)."""
+    changes = case["changes"]
+    t0 = start_under_changes(case)
+    if t0 is None:
+        return None, None, "abstain:start-too-close-to-call"
+    out, T, first = [], t0, True
+    for i, p in enumerate(pts):
+        q = dict(p)
+        if i == len(pts) - 1:
+            q["D"] = 0
+            out.append(q)
+            break
+        if not first and any(ch["tick"] == T + 1 for ch in changes):
+            return t0, None, "abstain:change-between-a-point-and-the-next-tick"
+        prod = Fraction(p["dur_eff"]) * res_at(case, T if first else T + 1)
+        D = round(prod)
+        if abs(prod - D) >= Fraction(5, 10 ** 9) or p.get("frac"):
+            return t0, None, "abstain:not-whole-ticks"
+        q["D"] = D
+        out.append(q)
+        if D > 0:
+            T, first = T + D, False
+    return t0, out, None
 
 
 def curve_failures(pts, t0, N, mode, calls, control, channel, closed):
@@ -495,9 +674,15 @@ def model_term(case, res, info, fn="ok"):
             x = {"note": 60, "program_change": 5, "osc_address": "/verif"}[p["kind"]]
             evs.append("oev %s %s %s %s" % (slit(p["kind"]), fv_in(x, toks), fv_in(chan, toks), d))
     maxc = optlit(case["count"], zlit)
-    model = "(timeline_run cosf (Z.to_nat %d) %d %s %s %d %s %s [%s])" % (
-        case["nticks"], case["N"], "Linear" if case["mode"] == "linear" else "Cosine", maxc, case["pre"],
-        qlit(case["quantize"] or 0), qlit(case["delay"] or 0), "; ".join(evs))
+    if case.get("changes"):
+        model = "(timeline_runv cosf (Z.to_nat %d) (res_of %d [%s]) %s %s (Z.to_nat %d) %s %s [%s])" % (
+            case["nticks"], case["N"], "; ".join("(%d, %d)" % (ch["tick"], ch["N"]) for ch in case["changes"]),
+            "Linear" if case["mode"] == "linear" else "Cosine", maxc, case["pre"],
+            qlit(case["quantize"] or 0), qlit(case["delay"] or 0), "; ".join(evs))
+    else:
+        model = "(timeline_run cosf (Z.to_nat %d) %d %s %s %d %s %s [%s])" % (
+            case["nticks"], case["N"], "Linear" if case["mode"] == "linear" else "Cosine", maxc, case["pre"],
+            qlit(case["quantize"] or 0), qlit(case["delay"] or 0), "; ".join(evs))
     calls = res["calls"]
     canon = lambda e: repr(Fraction(dec(e))) if e[0] in ("i", "f") and math.isfinite(dec(e)) else json.dumps(e)
     cs = {canon(c[1]) for c in calls}
@@ -578,7 +763,7 @@ def coq_diff(run, case, res, info):
 def set_nticks(case, info):
     stream = stream_of(case, info)
     total = sum(p["D"] or 0 for p in stream if p["D"] and p["D"] > 0)
-    case["nticks"] = oracle_t0(case) + total + 4
+    case["nticks"] = case.get("t0_plan", oracle_t0(case)) + total + 4
 
 
 def run_cases(run, cases, info):
@@ -596,6 +781,18 @@ def run_cases(run, cases, info):
         run.dist("stratum.%s" % c["stratum"] + (".%s" % c["edge"] if "edge" in c else ""))
         run.dist("N.%d" % c["N"])
         run.dist("mode.%s" % c["mode"])
+        if c.get("changes"):
+            run.dist("retime.changes.%d" % len(c["changes"]))
+            for ch in c["changes"]:
+                run.dist("retime.how.%s" % ch["how"])
+            ns = [c["N"]] + [ch["N"] for ch in c["changes"]]
+            for a, b in zip(ns, ns[1:]):
+                run.dist("retime.to." + ("same" if a == b else "finer" if b > a else "coarser") +
+                         (".multiple" if a != b and (a % b == 0 or b % a == 0) else ""))
+            if c["changes"][0]["tick"] <= c.get("t0_plan", 0):
+                run.dist("retime.before-first-tick" + (".deferred" if c["quantize"] or c["delay"] else ".immediate"))
+            if any(ch["tick"] > c.get("t0_plan", 0) for ch in c["changes"]):
+                run.dist("retime.during-the-run")
         stream = stream_of(c, info)
         for p in stream:
             D = p["D"]
@@ -650,7 +847,7 @@ def check(run):
     rng = run.rng
     scale = 1 if run.tier == "quick" else 15
     plan = [("basic", 90), ("three-plus", 60), ("awkward", 40), ("sched", 50), ("count", 35), ("loop", 30),
-            ("seq", 40), ("reject", 45), ("edge", 40)]
+            ("seq", 40), ("reject", 45), ("edge", 40), ("retime", 110)]
     cases = []
     # the documented scenario of DESIGN section 6 #10, always present
     fixed = make_case(rng, "awkward", N=100, mode="linear")
